@@ -364,6 +364,25 @@ func hostileWorkload(r *mon.Run, run func(hostileCase) (consumedIfAllRejected in
 			}
 		}
 	}
+	// (d5) a defect INSIDE a long line, at every distance from the line's end around the width an error excerpt
+	// has (about 200 bytes): one-line lists, minified documents that are cut off, a long string before a bad token
+	{
+		di := 0
+		for _, before := range []int{0, 150, 190, 196, 197, 198, 200, 203, 250, 400, 1000} {
+			for _, after := range []int{0, 1, 5, 100, 190, 196, 197, 198, 250} {
+				if r.Mine(di) {
+					pre := strings.Repeat("1,", before/2)
+					post := strings.Repeat(",1", after/2)
+					text(epSchema|epEnum|epDoc, "["+pre+"x"+post+"]", "defect inside a long line")
+					text(epSchema|epEnum|epDoc, "["+pre+post, "defect inside a long line")
+					text(epSchema|epDoc, "{\"k\":\""+strings.Repeat("é", before/2)+"\",\"z\":tru,\"y\":\""+strings.Repeat("b", after)+"\"}", "defect inside a long line")
+					text(epSchema, "\""+strings.Repeat("a", before)+"\" // {min: 1, note: \""+strings.Repeat("n", after)+"\"}", "defect inside a long line")
+					text(epSchema, "{\n  \"k\": ["+pre+"1] // {minItems: "+fmt.Sprint(before)+"}"+strings.Repeat(" ", after)+"\n}", "defect inside a long line")
+				}
+				di++
+			}
+		}
+	}
 	// (d4) layered projects: two types per layer, each referring to both types of the next layer, in every reference
 	// form - the work must grow with the number of types, not with the number of routes (2^layers)
 	{
@@ -566,6 +585,14 @@ func c02Judge(r *mon.Run) func(c call, hc hostileCase) {
 			r.Violate("panic", c.Entry+"/"+c.Panic.Site, fmt.Sprintf("%s let a panic escape (%s) on %s", c.Entry, mon.Trunc(c.Panic.Value, 160), caseDesc(hc)), hc)
 			return
 		}
+		if c.Err != nil {
+			// what the entry point returned is read the way every caller reads it: printed
+			if p := mon.Guard(func() { _ = c.Err.Error() }); p != nil {
+				r.Violate("panic", c.Entry+" error.Error()/"+p.Site, fmt.Sprintf("printing the error returned by %s panicked (%s) on %s", c.Entry, mon.Trunc(p.Value, 160), caseDesc(hc)), hc)
+				return
+			}
+			r.Count("returned_errors_printed", 1)
+		}
 		if c.Steps >= 0 && c.Steps > int64(2*len(c.Text)+8) {
 			r.Violate("step-bound", c.Entry, fmt.Sprintf("%s took %d scanner steps on a %d-byte text (bound 2*len+8): %s", c.Entry, c.Steps, len(c.Text), caseDesc(hc)), hc)
 		}
@@ -645,7 +672,7 @@ func init() {
 		ID:                 "C02",
 		Run:                func(r *mon.Run) { hostileRun(r, c02Judge(r)) },
 		Replay:             hostileReplay(c02Judge),
-		Rule:               "hostile inputs to every public entry point (JSchema Len/Check/Example/GetAST/UsedUserTypes/AddType/AddRule, Enum Len/Check/Values/GetAST, RSchema Check/Len/Example/GetAST/Pattern/AddType, Document Check/Len/NextLexeme in both modes, NewNumber, GuessSchemaType, OpenAPI conversion of accepted schemas), each call on fresh objects under a recover: (a) every token string up to a length bound per family (schema 34 tokens, len 3 quick / 5 thorough, with viable-prefix pruning from the H3 scanner probe; enum, regex, number, document alphabets; every number-shaped byte string over 0 1 - + . e x up to 5 / 6 hosted in an enum rule, a schema value, a rule value and a document; annotation bodies: 19 compound tokens (incl. the empty string) up to 5 / 6 inside `1 /* … */` and after `1 // `), (a3) 13 annotation tokens up to 5 / 6 with an enum rule and a type registered, (f3) an or rule (9 lists x 5 extras) on every kind of example in three placements, (b) every truncation, token deletion/duplication/substitution and CRLF/CR variant of every string literal harvested from the repository's tests, (c) random byte and token soups up to 9 KiB, (d) all 1-type (and, thorough, 2-type; sampled 2/3-type) projects of self/mutually referencing user types from 24 reference templates (incl. names that are never registered), (d') 81 x 4 projects with a check-time defect inside a member that other types inherit through allOf or reach by reference (heir named before and after the base, member behind padding lines), (d2) C07's exhaustive small allOf / additionalProperties graphs and 1.6k / 40k random ones, (d3) texts whose first or second line is 100 B .. 70 KB long with a defect on a later line under LF / CRLF / CR, (d4) layered projects of 6..64 layers with two types per layer in seven reference forms (work must not grow with the number of routes), (f2) every numeric rule with 20 magnitudes from 0 to 10^20 on a matching example, (g) 10 stray byte sequences of multi-byte characters at the last four positions and the start of 20 short texts of every kind (inputs are handed over without spare capacity behind them, so that reading beyond the text panics), (f4) 31 additionalProperties values x 7 member lists (plain, one / two key shortcuts, references) x 3 extras x 3 placements, (e) nesting ladder up to 2000 (quick) / 10000 (thorough). A violation is an escaped panic, a worker death or CPU-budget overrun that reproduces in a fresh process, or a scan using more than 2*len+8 steps. distinct_nontrivial = distinct (entry family, text) / projects (hashed).",
+		Rule:               "hostile inputs to every public entry point (JSchema Len/Check/Example/GetAST/UsedUserTypes/AddType/AddRule, Enum Len/Check/Values/GetAST, RSchema Check/Len/Example/GetAST/Pattern/AddType, Document Check/Len/NextLexeme in both modes, NewNumber, GuessSchemaType, OpenAPI conversion of accepted schemas), each call on fresh objects under a recover: (a) every token string up to a length bound per family (schema 34 tokens, len 3 quick / 5 thorough, with viable-prefix pruning from the H3 scanner probe; enum, regex, number, document alphabets; every number-shaped byte string over 0 1 - + . e x up to 5 / 6 hosted in an enum rule, a schema value, a rule value and a document; annotation bodies: 19 compound tokens (incl. the empty string) up to 5 / 6 inside `1 /* … */` and after `1 // `), (a3) 13 annotation tokens up to 5 / 6 with an enum rule and a type registered, (f3) an or rule (9 lists x 5 extras) on every kind of example in three placements, (b) every truncation, token deletion/duplication/substitution and CRLF/CR variant of every string literal harvested from the repository's tests, (c) random byte and token soups up to 9 KiB, (d) all 1-type (and, thorough, 2-type; sampled 2/3-type) projects of self/mutually referencing user types from 24 reference templates (incl. names that are never registered), (d') 81 x 4 projects with a check-time defect inside a member that other types inherit through allOf or reach by reference (heir named before and after the base, member behind padding lines), (d2) C07's exhaustive small allOf / additionalProperties graphs and 1.6k / 40k random ones, (d3) texts whose first or second line is 100 B .. 70 KB long with a defect on a later line under LF / CRLF / CR, (d5) one-line texts with a defect at 11 x 9 distances from the beginning and the end of a long line (0 .. 1000 bytes, dense around 197), (d4) layered projects of 6..64 layers with two types per layer in seven reference forms (work must not grow with the number of routes), (f2) every numeric rule with 20 magnitudes from 0 to 10^20 on a matching example, (g) 10 stray byte sequences of multi-byte characters at the last four positions and the start of 20 short texts of every kind (inputs are handed over without spare capacity behind them, so that reading beyond the text panics), (f4) 31 additionalProperties values x 7 member lists (plain, one / two key shortcuts, references) x 3 extras x 3 placements, (e) nesting ladder up to 2000 (quick) / 10000 (thorough). A violation is an escaped panic (from the call, or from printing the error it returned), a worker death or CPU-budget overrun that reproduces in a fresh process, or a scan using more than 2*len+8 steps. distinct_nontrivial = distinct (entry family, text) / projects (hashed).",
 		MinNontrivialQuick: 100000, MinNontrivialThorough: 1000000,
 		Assumptions: []string{"inputs up to 64 KiB and nesting up to 10^4 (deeper nesting costs tens of CPU-seconds per call on this tree: slow, but it returns); exponents above 10^6 are rejected by the library since the fix recorded in known_findings.jsonl", "OpenAPI conversion is only exercised for accepted schemas",
 			"a process death counts only if it reproduces on the same case in a fresh process; CPU budget 300 s per case (process CPU time, not wall clock)"},
